@@ -53,16 +53,29 @@ import (
 // ---------------------------------------------------------------- S-expressions
 
 func fiSx(fi *webdav.FileInfo) string {
+	_, off := fi.ModTime.Zone()
 	return hx.L("fi", hx.S(fi.Path), hx.I(fi.Size), hx.I(fi.ModTime.Unix()), hx.I(int64(fi.ModTime.Nanosecond())),
-		hx.B(fi.IsDir), hx.S(fi.MIMEType), hx.S(fi.ETag))
+		hx.B(fi.IsDir), hx.S(fi.MIMEType), hx.S(fi.ETag), hx.I(int64(off)))
+}
+
+// inZone gives the same instant in a fixed zone (seconds east of UTC).
+func inZone(t time.Time, off int) time.Time {
+	if off == 0 {
+		return t.UTC()
+	}
+	return t.In(time.FixedZone("", off))
 }
 
 func mkTime(sec, ns int64) time.Time { return time.Unix(sec, ns).UTC() }
 
 func parseFi(x hx.Sx) webdav.FileInfo {
 	a := x.Args()
-	return webdav.FileInfo{Path: a[0].Str(), Size: a[1].Int(), ModTime: mkTime(a[2].Int(), a[3].Int()),
+	fi := webdav.FileInfo{Path: a[0].Str(), Size: a[1].Int(), ModTime: mkTime(a[2].Int(), a[3].Int()),
 		IsDir: a[4].Bool(), MIMEType: a[5].Str(), ETag: a[6].Str()}
+	if len(a) > 7 {
+		fi.ModTime = inZone(fi.ModTime, int(a[7].Int()))
+	}
+	return fi
 }
 
 func errSx(err error) string {
